@@ -296,7 +296,12 @@ func init() {
 					retries[t] = scriptRetries[sc[t]]
 				}
 				serial, maxpar, mname := modeOf(mode)
-				spec := &Spec{N: n, Hist: canonHist(r, n, edges, retries), Plan: plan, Serial: serial, MaxPar: maxpar, Buffer: r.chance(1, 3)}
+				hist := canonHist(r, n, edges, retries)
+				if r.chance(1, 4) {
+					pos := r.intn(len(hist) + 1)
+					hist = append(hist[:pos], append([]Call{{Op: "add", A: r.intn(n)}}, hist[pos:]...)...)
+				}
+				spec := &Spec{N: n, Hist: hist, Plan: plan, Serial: serial, MaxPar: maxpar, Buffer: r.chance(1, 3)}
 				res := newRes(map[string]interface{}{"spec": spec})
 				res.Cells = []string{fmt.Sprintf("small|n=%d|%s|buffer=%v", n, mname, spec.Buffer)}
 				if v := runAll(spec, 400, res, allProps); v != nil {
@@ -315,7 +320,14 @@ func init() {
 			if maxpar == 2 {
 				maxpar = 2 + r.intn(3)
 			}
-			spec := &Spec{N: n, Hist: canonHist(r, n, edges, retries), Plan: plan, Serial: serial, MaxPar: maxpar, PSeed: r.u64(), Buffer: r.chance(1, 3)}
+			hist := canonHist(r, n, edges, retries)
+			if r.chance(1, 3) { // tasks added again (before or after they got edges): the declared dependencies must survive
+				for k := r.intn(3); k >= 0; k-- {
+					pos := r.intn(len(hist) + 1)
+					hist = append(hist[:pos], append([]Call{{Op: "add", A: r.intn(n)}}, hist[pos:]...)...)
+				}
+			}
+			spec := &Spec{N: n, Hist: hist, Plan: plan, Serial: serial, MaxPar: maxpar, PSeed: r.u64(), Buffer: r.chance(1, 3)}
 			switch r.intn(4) {
 			case 0, 1:
 				spec.Policy = "rand"
@@ -556,7 +568,12 @@ func init() {
 			} else {
 				n = 4 + r.intn(9)
 				edges := randomDag(r, n, 10+r.intn(40))
-				_, retries := randomPlan(r, n, 0)
+				retries := make([]int, n)
+				for t := range retries {
+					if r.chance(1, 3) {
+						retries[t] = 1 + r.intn(2) // retries configured whatever the outcome plan: failing attempts re-enter
+					}
+				}
 				hist = canonHist(r, n, edges, retries)
 				// re-add some known tasks at the end or in the middle
 				if r.chance(1, 2) {
@@ -579,6 +596,20 @@ func init() {
 			}
 			serial, maxpar, mname := modeOf(r.intn(4))
 			spec := &Spec{N: n, Hist: hist, Plan: plan, Serial: serial, MaxPar: maxpar, PSeed: r.u64()}
+			if idx >= histCases(maxLen) && r.chance(1, 3) {
+				// Run must return under cancellation too (retries, failures and cancellation combined)
+				// every failing script fails all its attempts or succeeds late: with retries configured in the history the
+				// task function is re-entered after the cancellation
+				plan = make([][]int, n)
+				for t := range plan {
+					plan[t] = [][]int{{OK}, {ERR}, {ERR, OK}, {ERR, ERR, OK}, {SKIPPARENTS}, {OK}}[r.intn(6)]
+				}
+				spec.Plan = plan
+				spec.Cancel = Cancel{Kind: []string{"after-release", "inside-task", "before-run"}[r.intn(3)], K: 1 + r.intn(2)}
+				if spec.Cancel.Kind == "inside-task" {
+					spec.Cancel.K = r.intn(n)
+				}
+			}
 			res := newRes(map[string]interface{}{"spec": spec})
 			cl := "acyclic"
 			if m.Cycle {
